@@ -21,4 +21,5 @@ def check(ctx):
     scopes.rule_scope_always_opened(ctx, facts, "R2")
     provrules.rule_scope_parent(ctx, facts, "R3")
     scopes.rule_epochs(ctx, facts, "R3")
+    scopes.rule_epoch_representation(ctx, facts, "R3")
     scopes.rule_inert_without_scope(ctx, facts, "R4")
